@@ -26,7 +26,7 @@ type Res struct {
 	Status    int      `json:"status,omitempty"`     // status kind: the code answered; redirect kind: 301/302/303/307/308
 	Loc       string   `json:"loc,omitempty"`        // redirect target
 	Assets    []string `json:"assets,omitempty"`     // embedded resources (html: img src, json: string values, m3u8: segments)
-	Links     []string `json:"links,omitempty"`      // html: <a href>
+	Links     []string `json:"links,omitempty"`      // html: <a href>; json: string values without a file extension (queued as outlinks)
 	HdrLinks  []string `json:"hdr_links,omitempty"`  // html: URLs announced in a Link response header (rel=next ...)
 	FailFirst int      `json:"fail_first,omitempty"` // the first N attempts fail ...
 	FailKind  int      `json:"fail_kind,omitempty"`  // ... with this status (0 = transport error); -1 = always fail
@@ -189,6 +189,12 @@ func render(r *Res) ([]byte, http.Header) {
 				b.WriteString(",")
 			}
 			fmt.Fprintf(&b, "\"k%d\":%q", i, a)
+		}
+		for i, l := range r.Links {
+			if i > 0 || len(r.Assets) > 0 {
+				b.WriteString(",")
+			}
+			fmt.Fprintf(&b, "\"next%d\":%q", i, l)
 		}
 		b.WriteString("}")
 	case "m3u8":
